@@ -265,13 +265,14 @@ structure Ref (A : Type) where
 
 def isBase (hdr : Hdr) (k : Name) : Bool := hdr.lookup k == some none
 
+def rhsBase {A} (hdr : Hdr) : RRhs A → Bool
+  | .name k => isBase hdr k
+  | .const _ => true
+
 /-- `id.c OP id.c2 | literal` on base columns of the outer sequence -/
 def resolveOuter {A} (lit : List Char → Option A) (id : Name) (hdr : Hdr) (c : Cond) : Option (RCond A) :=
   match resolve lit id hdr.names c with
-  | some rc =>
-    if isBase hdr rc.c1 && (match rc.rhs with
-      | .name k => isBase hdr k
-      | .const _ => true) then some rc else none
+  | some rc => if isBase hdr rc.c1 && rhsBase hdr rc.rhs then some rc else none
   | none => none
 
 /-- `id.n.x OP id.n.y | literal` on columns of the nested sequence `n` -/
